@@ -31,12 +31,12 @@ RULE = ('numbers: corpus valid numbers of each module with getters; synthesised:
         'character (reaches century markers, unknown registry prefixes, type markers), date fields set to leap days '
         '(29 Feb in leap and non-leap years), day 00 / month 00, 31st of short months, offset months/days (+20/+40/'
         '+50/+80) and repaired likewise; raw presentations: corpus spelling, format() output, lower case, padded. '
-        'Each under the frozen dates 2026-09-26, 2000-01-01, 1999-12-31, 2024-02-29, 2100-03-01, 1970-01-01 for '
-        'modules that read the clock (one date otherwise). Non-trivial = distinct (module, getter, canonical number, '
+        'Each under the frozen dates 2026-09-26, 2000-01-01, 2024-02-29 (quick) plus 1999-12-31, 2100-03-01, 1970-01-01 '
+        '(thorough) for modules that read the clock (one date otherwise). Non-trivial = distinct (module, getter, canonical number, '
         'date) with the number accepted by validate(); every getter evaluation counts as a case.')
 
-DATES = [datetime.date(2026, 9, 26), datetime.date(2000, 1, 1), datetime.date(1999, 12, 31),
-         datetime.date(2024, 2, 29), datetime.date(2100, 3, 1), datetime.date(1970, 1, 1)]
+DATES = [datetime.date(2026, 9, 26), datetime.date(2000, 1, 1), datetime.date(2024, 2, 29),
+         datetime.date(1999, 12, 31), datetime.date(2100, 3, 1), datetime.date(1970, 1, 1)]
 DIG = '0123456789'
 UP = 'ABCDEFGHIJKLMNOPQRSTUVWXYZ'
 
@@ -146,7 +146,7 @@ def kind_ok(modname, fname, value):
     if fname == 'get_birth_date':
         if value is None:
             return modname in NONE_DATE_OK, 'datetime.date' + (' or None' if modname in NONE_DATE_OK else '')
-        return type(value) is datetime.date, 'datetime.date'
+        return isinstance(value, datetime.date) and not isinstance(value, datetime.datetime), 'datetime.date'
     if fname == 'get_gender':
         if value is None:
             return modname in NONE_GENDER_OK, "'M' or 'F'"
@@ -160,10 +160,10 @@ def kind_ok(modname, fname, value):
     return isinstance(value, str), 'str'
 
 
-def check_number(ctx, modname, getters, x, today):
+def check_number(ctx, modname, getters, x, today, enter=True):
     """all C12 relations for one input under one frozen date; returns True when x was valid"""
     mod = common.module(modname)
-    with common.frozen_today(today):
+    with frozen(today, enter):
         vo = E.call(mod.validate, x)
         if vo.kind != 'ok' or not isinstance(vo.value, str):
             return False
@@ -231,20 +231,49 @@ def check_number(ctx, modname, getters, x, today):
 
 # ----------------------------------------------------------------------------- synthesis
 
-def is_valid_on(mod, s, today):
-    with common.frozen_today(today):
+class _Null:
+    def __enter__(self):
+        return self
+
+    def __exit__(self, *a):
+        return False
+
+
+def frozen(today, enter=True):
+    """frozen_today walks over all loaded modules; workers enter it once per date instead of once per call"""
+    return common.frozen_today(today) if (enter and today is not None) else _Null()
+
+
+def is_valid_on(mod, s, today, enter=True):
+    with frozen(today, enter):
         return E.call(mod.validate, s).kind == 'ok'
 
 
-def repair(mod, s, locked, today):
+class Budget:
+    """deterministic cap on the number of validate() calls spent on synthesis per base number"""
+
+    def __init__(self, n):
+        self.n = n
+
+    def spend(self):
+        self.n -= 1
+        return self.n >= 0
+
+
+def repair(mod, s, locked, today, enter=True, budget=None):
     """s if valid, else s with one (or the last two) unlocked characters replaced so that validate() accepts"""
-    if is_valid_on(mod, s, today):
-        return s
-    with common.frozen_today(today):
+    budget = budget or Budget(400)
+    with frozen(today, enter):
+        if not budget.spend():
+            return None
+        if E.call(mod.validate, s).kind == 'ok':
+            return s
         free = [j for j in range(len(s) - 1, -1, -1) if j not in locked and s[j].isalnum()]
-        for j in free[:6]:
+        for j in free[:4]:
             alpha = DIG if s[j].isdigit() else UP + DIG
             for ch in alpha:
+                if not budget.spend():
+                    return None
                 t = s[:j] + ch + s[j + 1:]
                 if E.call(mod.validate, t).kind == 'ok':
                     return t
@@ -252,6 +281,8 @@ def repair(mod, s, locked, today):
             i, j = free[1], free[0]
             for a in DIG:
                 for b in DIG:
+                    if not budget.spend():
+                        return None
                     t = s[:i] + a + s[i + 1:]
                     t = t[:j] + b + t[j + 1:]
                     if E.call(mod.validate, t).kind == 'ok':
@@ -267,16 +298,20 @@ MONTH_OFFSETS = [0, 20, 40, 50, 70, 80]
 DAY_OFFSETS = [0, 40]
 
 
-def synth(rng, modname, base, today, budget):
+SLOW_VALIDATE = {'stdnum.mac': 12, 'stdnum.gs1_128': 6}     # divisor of the call budget (registry scans per validate)
+
+
+def synth(rng, modname, base, today, budget, enter=True):
     """candidate valid numbers near canonical base number"""
     mod = common.module(modname)
     out, seen = [], set()
+    calls = Budget(budget * 25 // SLOW_VALIDATE.get(modname, 1))
 
     def add(s, locked):
-        if s in seen or len(out) >= budget:
+        if s in seen or len(out) >= budget or calls.n <= 0:
             return
         seen.add(s)
-        r = repair(mod, s, locked, today)
+        r = repair(mod, s, locked, today, enter, calls)
         if r is not None and r not in out:
             out.append(r)
     positions = list(range(len(base)))
@@ -345,6 +380,53 @@ def extra_inputs(modname):
     return []
 
 
+def _one_date(ctx, col, rng, seed, modname, mod, getters, corpus, today, chunk, nchunks, nbases, budget):
+    """runs inside frozen_today(today)"""
+    valid_seen = 0
+    inputs = []
+    if chunk == 0:
+        inputs.extend(corpus)
+        for x in extra_inputs(modname):
+            r = repair(mod, x, set(), today, False)
+            if r:
+                inputs.append(r)
+    canon = []
+    for x in corpus:
+        o = E.call(mod.validate, x)
+        if o.kind == 'ok' and isinstance(o.value, str) and o.value not in canon:
+            canon.append(o.value)
+    rng2 = random.Random('%s/%s/%d/%s' % (seed, modname, chunk, today))
+    rng2.shuffle(canon)
+    # distinct lengths / shapes first
+    bases, shapes = [], set()
+    for c in canon:
+        shape = (len(c), ''.join('9' if ch.isdigit() else 'A' if ch.isalpha() else ch for ch in c))
+        if shape not in shapes:
+            shapes.add(shape)
+            bases.append(c)
+    for c in canon:
+        if c not in bases:
+            bases.append(c)
+    bases = bases[chunk::nchunks][:nbases]
+    for b in bases:
+        syn = synth(rng2, modname, b, today, budget, False)
+        inputs.extend(syn)
+        col.count('synthesised:' + modname.replace('stdnum.', ''), len(syn))
+        for s in syn[:: max(1, len(syn) // 12)]:
+            inputs.extend(presentations(rng2, mod, s)[1:])
+    seen = set()
+    for x in inputs:
+        if x in seen:
+            continue
+        seen.add(x)
+        if check_number(ctx, modname, getters, x, today, False):
+            valid_seen += 1
+            if len(col.samples) < 1 and chunk == 0:
+                col.sample({'module': modname, 'input': x, 'today': today.isoformat() if today else None,
+                            'getters': dict((g, E.call(getattr(mod, g), x).show()) for g in getters)})
+    return valid_seen
+
+
 def _worker(task):
     seed, tier, modname, getters, chunk, nchunks = task
     rng = random.Random('%s/%s/%d' % (seed, modname, chunk))
@@ -354,54 +436,15 @@ def _worker(task):
     quick = tier == 'quick'
     corpus = list(common.valid_numbers(modname)) + extra_inputs(modname)
     # candidates that only need a check character (hand-picked ones may be off by the check digit)
-    dates = DATES if clock_module(modname) else DATES[:1]
-    nbases = (2 if quick else 8)
-    budget = (160 if quick else 400)
+    # modules that never read the clock are not frozen at all (frozen_today swaps the module's datetime, which
+    # changes isinstance(x, datetime.date) inside e.g. gs1_128 - a harness artefact, not library behaviour)
+    dates = (DATES[:3] if quick else DATES) if clock_module(modname) else [None]
+    nbases = (2 if quick else 6)
+    budget = (90 if quick else 300)
     valid_seen = 0
     for today in dates:
-        inputs = []
-        if chunk == 0:
-            inputs.extend(corpus)
-            for x in extra_inputs(modname):
-                r = repair(mod, x, set(), today)
-                if r:
-                    inputs.append(r)
-        canon = []
-        for x in corpus:
-            with common.frozen_today(today):
-                o = E.call(mod.validate, x)
-            if o.kind == 'ok' and isinstance(o.value, str) and o.value not in canon:
-                canon.append(o.value)
-        rng2 = random.Random('%s/%s/%d/%s' % (seed, modname, chunk, today))
-        rng2.shuffle(canon)
-        # distinct lengths / shapes first
-        bases, shapes = [], set()
-        for c in canon:
-            shape = (len(c), ''.join('9' if ch.isdigit() else 'A' if ch.isalpha() else ch for ch in c))
-            if shape not in shapes:
-                shapes.add(shape)
-                bases.append(c)
-        for c in canon:
-            if c not in bases:
-                bases.append(c)
-        bases = bases[chunk::nchunks][:nbases]
-        for b in bases:
-            syn = synth(rng2, modname, b, today, budget)
-            inputs.extend(syn)
-            col.count('synthesised:' + modname.replace('stdnum.', ''), len(syn))
-            for s in syn[:: max(1, len(syn) // 12)]:
-                inputs.extend(presentations(rng2, mod, s)[1:])
-        seen = set()
-        for x in inputs:
-            if x in seen:
-                continue
-            seen.add(x)
-            if check_number(ctx, modname, getters, x, today):
-                valid_seen += 1
-                if len(col.samples) < 1 and chunk == 0:
-                    with common.frozen_today(today):
-                        col.sample({'module': modname, 'input': x, 'today': today.isoformat(),
-                                    'getters': dict((g, E.call(getattr(mod, g), x).show()) for g in getters)})
+        with frozen(today):
+            valid_seen += _one_date(ctx, col, rng, seed, modname, mod, getters, corpus, today, chunk, nchunks, nbases, budget)
     col.count('valid-inputs:' + modname.replace('stdnum.', ''), valid_seen)
     return col.dump()
 
@@ -426,7 +469,7 @@ def replay(case):
         return None
     ctx = Ctx(None)
     x = common.rebuild(case['args'][0])
-    today = datetime.date.fromisoformat(case.get('today', '2026-09-26'))
+    today = datetime.date.fromisoformat(case['today']) if case.get('today') else None
     check_number(ctx, modname, getters[modname], x, today)
     same = [c for c in ctx.found if c['function'] == case['function'] and c['relation'] == case.get('relation')]
     found = same or [c for c in ctx.found if c['function'] == case['function']]
